@@ -320,7 +320,7 @@ def small_alphabet(level: str = 'full') -> Alphabet:
     params a, b, x, y; the 10 operators; both quantifiers.
 
       'full'  every leaf (42), all operators, both quantifiers over x and y      depth 1 = 10 962
-      'mid'   4 leaves, N M / K I B, binders Ux Ex Uy                             depth 2 = 12 264
+      'mid'   4 leaves, N M / K I B, binders Ux Ex Uy                             depth 2 = 15 916
       'mini'  3 leaves, N / K I, binders Ux Ex Uy                                 depth 2 =  2 313
     """
     a, b = Constant(0, 0), Constant(1, 0)
@@ -371,8 +371,7 @@ def small_sentences(depth: int, alphabet: Alphabet | str = 'mini'):
         last = new
 
 
-RAND_PREDS = ((0, 0, 1), (1, 0, 2), (2, 1, 3), (3, BIG, 1), (0, 1, 2), (1, 0, 3),
-              (-1, 0, 2), (-2, 0, 1))
+RAND_PREDS = ((0, 0, 1), (1, 0, 2), (2, 1, 3), (3, BIG, 1), (0, 1, 2), (1, 0, 3))
 
 
 def rand_param(rng, cls=None):
@@ -394,7 +393,7 @@ def rand_pool(rng, n: int = 6) -> list:
 def rand_pred(rng, system: float = 0.3):
     if rng.random() < system:
         return rng.choice((Predicate.Identity, Predicate.Existence))
-    return mk_pred(*rng.choice(RAND_PREDS[:6]))
+    return mk_pred(*rng.choice(RAND_PREDS))
 
 
 def rand_leaf(rng, pool, bound=(), atom: float = 0.25):
